@@ -1,165 +1,2 @@
-/- GENERATED by translator/gen_main.py from src/main.cpp (sha256 9e9f5d9eff19a30d).
-   Do not edit: overwritten by every check run. -/
-namespace Inovesa.Gen
-
-/-- guards occurring around the simulation loop of main() -/
-inductive MCond where
-  | hasWake | hasWakeField | hasFile | renormNow | outNow | h5saveZero | hasDrfm
-  deriving Repr, DecidableEq
-
-/-- statements: a canonical call name, or a guarded pair of blocks -/
-inductive MStmt where
-  | call (name : String)
-  | ite (c : MCond) (t e : List MStmt)
-  deriving Repr
-
-/-- from `Starting the simulation.` to the loop: first status and initial record -/
-def initialBlock : List MStmt := [
-  .call "decl.updatetime",
-  .call "grid.updateXProjection",
-  .call "grid.integrate",
-  .call "grid.updateYProjection",
-  .call "grid.variance1",
-  .call "print.status",
-  .call "ip:setup:first-status",
-  .call "decl.h5save",
-  .ite .hasFile [
-    .ite .hasWakeField [
-      .call "wakefield.wakePotential",
-      .call "file.appendPadded"
-    ] [
-
-    ],
-    .ite .h5saveZero [
-      .call "file.appendGrid.PhaseSpace0"
-    ] [
-
-    ]
-  ] [
-
-  ],
-  .call "ip:setup:initial-record",
-  .call "decl.outstepnr",
-  .call "decl.simulationstep"
-]
-
-/-- body of `while (simulationstep<laststep && !Display::abort)` -/
-def loopBody : List MStmt := [
-  .call "ip:loop:head",
-  .ite .hasWake [
-    .call "wkm.update"
-  ] [
-
-  ],
-  .call "ip:loop:wake-updated",
-  .ite .renormNow [
-    .call "grid.integrateAndNormalize"
-  ] [
-    .call "grid.integrate"
-  ],
-  .call "ip:loop:integrated",
-  .ite .outNow [
-    .call "grid.integrate",
-    .call "grid.variance0",
-    .call "grid.updateYProjection",
-    .call "grid.variance1",
-    .ite .hasFile [
-      .call "decl.at",
-      .call "ip:out:moments",
-      .call "file.appendGrid.at",
-      .call "ip:out:ps-appended",
-      .call "rdtn.updateCSR",
-      .call "file.appendCSR",
-      .call "ip:out:csr-appended",
-      .ite .hasWake [
-        .call "file.appendWake"
-      ] [
-
-      ],
-      .call "ip:out:wake-appended",
-      .call "file.appendTracks",
-      .call "ip:out:tracks-appended",
-      .ite .hasDrfm [
-        .call "file.appendRFKicks"
-      ] [
-
-      ]
-    ] [
-
-    ],
-    .call "outnr++",
-    .call "print.status"
-  ] [
-
-  ],
-  .call "ip:loop:output-done",
-  .call "wm.apply",
-  .call "wm.track",
-  .call "ip:loop:wake-applied",
-  .call "rfm.apply",
-  .call "rfm.track",
-  .call "ip:loop:rf-applied",
-  .call "drm.apply",
-  .call "drm.track",
-  .call "ip:loop:drift-applied",
-  .call "fpm.apply",
-  .call "fpm.track",
-  .call "ip:loop:fp-applied",
-  .call "grid.updateXProjection",
-  .call "ip:loop:projected",
-  .call "step++"
-]
-
-/-- after the loop: the final record -/
-def finalBlock : List MStmt := [
-  .call "ip:final:loop-left",
-  .ite .hasFile [
-    .ite .hasWake [
-      .call "wkm.update"
-    ] [
-
-    ],
-    .ite .renormNow [
-      .call "grid.integrateAndNormalize"
-    ] [
-      .call "grid.integrate"
-    ],
-    .call "grid.variance0",
-    .call "grid.updateYProjection",
-    .call "grid.variance1",
-    .call "ip:final:moments",
-    .call "file.appendGrid.All",
-    .call "ip:final:ps-appended",
-    .call "rdtn.updateCSR",
-    .call "file.appendCSR",
-    .ite .hasWake [
-      .call "file.appendWake"
-    ] [
-
-    ],
-    .call "file.appendTracks",
-    .ite .hasDrfm [
-      .call "file.appendRFKicks"
-    ] [
-
-    ],
-    .call "ip:final:rfkicks-appended",
-    .ite .hasWakeField [
-      .call "file.appendPadded"
-    ] [
-
-    ]
-  ] [
-
-  ],
-  .call "ip:final:record-written"
-]
-
-/-- interrupt-point markers of the set-up part, passed before `initialBlock` starts -/
-def setupMarkers : Nat := 8
-
-/-- after the final record main prints `Aborted.` iff the abort flag is set, else `Finished.`,
-    and returns EXIT_SUCCESS -/
-def endsWithAbortedOrFinished : Bool := true
-
-end Inovesa.Gen
+/- GENERATION FAILED (fail-closed): simulation loop `while (simulationstep<laststep && !Display::abort)` not found uniquely -/
+#eval (translator_failed_for_fragment_MainProgram : Nat)
